@@ -12,6 +12,8 @@ C08 — executable models of the three handle mechanisms.
 * `FdSys` — `tbox::util::Fd` (modules/util/fd.{h,cpp}): a heap of `Detail` records and handle slots
             holding an optional detail pointer; every member function is transcribed (construction from
             an invalid descriptor number included; an empty close function is "no function").
+            `close()` follows patches/C08-06 (descriptor and close function taken out of the record before the
+            function is called; `closeOld` = before); close functions that call back: `runD`.
 * Fast.lean — the class `cabinet::Token` itself (constructors, accessors, order, hash), runs of many calls
             (`allocN`/`freeN`/`atN`, pool `allocMany`/`freeMany`) and `CabA`, the cabinet over an `Array`
             that the driver executes (proved equal to `Cab`).
@@ -190,6 +192,95 @@ def Cab.runX (c : Cab) : List CabOpX → Cab
   | [] => c
   | x :: xs => (c.stepX x).runX xs
 
+/-! ### calls that throw from inside a `foreach` callback, `reserve()`
+
+`foreach` (cabinet.hpp:172-176) has no handler: an exception that leaves the callback leaves `foreach`
+at once and the remaining cells are not visited.  The calls of the cabinet that can throw are
+`alloc()` (`push_back` → `std::bad_alloc`, see above) and `reserve(n)` (`std::length_error` when
+`n > max_size()`, `std::bad_alloc` when the new storage cannot be had); `std::vector::reserve` gives
+the strong guarantee, so a throwing `reserve` is a failed call that changed nothing
+(`allocThrow false`).  A callback may catch the exception itself (`caught`) and go on. -/
+
+/-- `std::vector<Cell>::max_size()` of libstdc++ on LP64 for the 16-byte cell: `PTRDIFF_MAX / sizeof(Cell)` -/
+def cabMaxCells : Nat := 576460752303423487
+
+/-- `reserve(n)`: no observable state (the model has no capacity); `true` = it threw `std::length_error` -/
+def Cab.reserve (c : Cab) (n : Nat) : Cab × Bool := (c, decide (n > cabMaxCells))
+
+/-- a call made from inside a callback: an ordinary one; one that throws whatever the state (`reserve` beyond
+`max_size()`; `idAdvanced` as in `allocThrow`, `false` for `reserve`); or `alloc(obj)` when the next
+`operator new` fails — with a free cell no allocation is attempted and the call SUCCEEDS, otherwise it throws.
+`caught`: the callback catches the exception itself and goes on; otherwise it leaves the callback and `foreach` -/
+inductive CbActX where
+  | act (a : CbAct)
+  | throwing (idAdvanced : Bool) (caught : Bool)
+  | allocOom (obj : Nat) (idAdvanced : Bool) (caught : Bool)
+deriving Repr, DecidableEq
+
+/-- one invocation of the callback: the calls in order up to the first exception that is not caught;
+`true` = the exception left the callback -/
+def Cab.runCbX (c : Cab) : List CbActX → Cab × Bool
+  | [] => (c, false)
+  | .act a :: as => ((c.act a).1).runCbX as
+  | .throwing b true :: as => (c.allocThrow b).runCbX as
+  | .throwing b false :: _ => (c.allocThrow b, true)
+  | .allocOom o b caught :: as =>
+      if c.firstFree ≠ sizeMax then ((c.alloc o).1).runCbX as
+      else if caught then (c.allocThrow b).runCbX as else (c.allocThrow b, true)
+
+/-- the same invocation as a history of calls (what `runX` executes) -/
+def traceCbX (c : Cab) : List CbActX → List CabOpX
+  | [] => []
+  | .act a :: as => .op (.act a) :: traceCbX (c.act a).1 as
+  | .throwing b true :: as => .allocFail b :: traceCbX (c.allocThrow b) as
+  | .throwing b false :: _ => [.allocFail b]
+  | .allocOom o b caught :: as =>
+      if c.firstFree ≠ sizeMax then .op (.act (.alloc o)) :: traceCbX (c.alloc o).1 as
+      else if caught then .allocFail b :: traceCbX (c.allocThrow b) as else [.allocFail b]
+
+structure EachX where
+  cab : Cab
+  vis : List (Nat × Nat) := []        -- callbacks made: (cell position, object)
+  aborted : Bool := false             -- an exception has left `foreach`
+  trace : List CabOpX := []           -- every call the callbacks made, in order
+
+/-- one iteration of the loop in `foreach` when callbacks may throw -/
+def Cab.eachStepX (script : Nat → List CbActX) (st : EachX) (p : Nat) : EachX :=
+  if st.aborted then st else
+  match st.cab.cells[p]? with
+  | none => st
+  | some cell =>
+      if cell.id ≠ 0 then
+        let r := st.cab.runCbX (script st.vis.length)
+        { cab := r.1, vis := st.vis ++ [(p, cell.w)], aborted := r.2,
+          trace := st.trace ++ traceCbX st.cab (script st.vis.length) }
+      else st
+
+def Cab.foreachX (c : Cab) (script : Nat → List CbActX) : EachX :=
+  (List.range c.cells.length).foldl (Cab.eachStepX script) { cab := c }
+
+/-- histories of round 5: everything of `CabOpX`, iterations whose callbacks make throwing calls, `reserve` -/
+inductive CabOpY where
+  | x (o : CabOpX)
+  | eachX (script : Nat → List CbActX)
+  | reserve (n : Nat)
+
+def Cab.stepY (c : Cab) : CabOpY → Cab
+  | .x o => c.stepX o
+  | .eachX f => (c.foreachX f).cab
+  | .reserve n => (c.reserve n).1
+
+def Cab.runY (c : Cab) : List CabOpY → Cab
+  | [] => c
+  | y :: ys => (c.stepY y).runY ys
+
+/-- the calls a round-5 history makes, one after the other -/
+def Cab.flatY (c : Cab) : List CabOpY → List CabOpX
+  | [] => []
+  | .x o :: ys => o :: (c.stepX o).flatY ys
+  | .eachX f :: ys => (c.foreachX f).trace ++ ((c.foreachX f).cab).flatY ys
+  | .reserve _ :: ys => c.flatY ys
+
 /-! ## Object pool -/
 
 structure PStat where
@@ -211,6 +302,7 @@ structure Pool where
   dtor     : Nat := 0
   leaked   : Nat := 0           -- objects still constructed when their pool was destroyed
   thrown   : Nat := 0           -- constructors that exited by an exception (their block is lost: see `allocThrow`)
+  lost     : List Nat := []     -- ghost: the blocks of those constructors (owned by nobody: not parked, not released, not in use)
 deriving Repr, DecidableEq
 
 namespace Pool
@@ -248,15 +340,16 @@ def free (p : Pool) (b : Nat) : Pool := p.dtorEnter.freeB b
 environment -/
 def renew (p : Pool) (keep : Nat) : Pool :=
   { keep := keep, nextBlk := p.nextBlk, released := p.parked ++ p.released, ctor := p.ctor, dtor := p.dtor,
-    leaked := p.leaked, thrown := p.thrown }
+    leaked := p.leaked, thrown := p.thrown, lost := p.lost }
 
-/-- `alloc()` whose constructor THROWS (object_pool.hpp:122-139 has no handler): the block was
-taken (unlinked from the chain, `free_number_` decremented, or malloc'ed) before the constructor
-ran; the exception leaves `alloc()` before the statistics; nobody owns the block any more — it is
-neither parked, nor handed to `::free`, nor in use: it is lost (a memory leak, never an alias) -/
-def allocThrow (p : Pool) : Pool :=
-  let q := p.allocA.1.ctorEnter
-  { q with thrown := q.thrown + 1 }
+/-- the constructor running in block `b` exits by an exception (`alloc()` has no handler: the
+exception leaves it before the statistics): nobody owns the block any more — it is neither parked,
+nor handed to `::free`, nor in use: it is lost (a memory leak, never an alias) -/
+def ctorThrow (p : Pool) (b : Nat) : Pool := { p with thrown := p.thrown + 1, lost := b :: p.lost }
+
+/-- `alloc()` whose constructor THROWS at once (object_pool.hpp:122-139 has no handler): the block was
+taken (unlinked from the chain, `free_number_` decremented, or malloc'ed) before the constructor ran -/
+def allocThrow (p : Pool) : Pool := p.allocA.1.ctorEnter.ctorThrow p.allocA.2
 
 end Pool
 
@@ -301,6 +394,9 @@ inductive PEv where
   | aend                 -- the constructor has returned: statistics, pointer stored in slot h
   | fbeg (h : Nat)       -- `free(slot h)` enters: destructor entered
   | fend                 -- the destructor has returned: block parked / released, statistics
+  | athr                 -- the constructor of the innermost `alloc` in progress exits by an EXCEPTION (after the nested
+                         -- calls it made): no statistics, nothing stored, the block is lost; the exception is caught by
+                         -- whoever made the call (an enclosing constructor that lets it pass is the next `athr`)
 deriving Repr, DecidableEq
 
 inductive PoolOp where
@@ -347,6 +443,11 @@ def PoolSys.ev (s : PoolSys) : PEv → PoolSys × Option Nat
       if s.skip > 0 then ({ s with skip := s.skip - 1 }, none) else
       match s.stack with
       | .freeF _ b :: rest => ({ s with pool := s.pool.freeB b, stack := rest }, none)
+      | _ => (s, none)
+  | .athr =>
+      if s.skip > 0 then ({ s with skip := s.skip - 1 }, none) else
+      match s.stack with
+      | .allocF _ _ b :: rest => ({ s with pool := s.pool.ctorThrow b, stack := rest }, none)
       | _ => (s, none)
 
 def PoolSys.runEvs (s : PoolSys) : List PEv → PoolSys
@@ -639,6 +740,59 @@ def FdSys.calls (s : FdSys) : FdOp → List Sys
 def FdSys.run (s : FdSys) : List FdOp → FdSys
   | [] => s
   | op :: ops => (s.step op).run ops
+
+/-! ### close functions that call back into the handles (re-entrancy)
+
+`Fd(fd, close_func)`: the user's function runs inside `close()`, `reset()` and the destructor.  After
+patches/C08-06 `close()` takes the descriptor number and the function OUT of the record before calling
+it and touches nothing afterwards; `reset()` / `~Fd()` call it when no handle can reach the record any
+more (`ref_count == 0`, `this->detail_` already detached).  So whatever the function does to the handles
+happens on a state in which the operation is complete: a program with re-entrant scripts is the flat
+sequence "operation, then its script".  Programs are given in pre-order: `(d, op)` with depth `d + 1`
+belongs to the script of the nearest preceding item of depth `d`; it runs iff that item's operation did
+call a close function (and was itself run). -/
+
+/-- the operation calls a user-supplied close function -/
+def FdSys.fires (s : FdSys) (op : FdOp) : Bool := ((s.step op).closeLog.drop s.closeLog.length).any (·.2)
+
+def FdSys.runD (s : FdSys) (fired : List Bool) : List (Nat × FdOp) → FdSys
+  | [] => s
+  | (d, op) :: rest =>
+      let anc := fired.take d
+      if anc.length = d ∧ anc.all (· == true) then (s.step op).runD (anc ++ [s.fires op]) rest
+      else s.runD (anc ++ List.replicate (d + 1 - anc.length) false) rest
+
+/-- the operations of a re-entrant program that take place, in the order they take place -/
+def FdSys.flatD (s : FdSys) (fired : List Bool) : List (Nat × FdOp) → List FdOp
+  | [] => []
+  | (d, op) :: rest =>
+      let anc := fired.take d
+      if anc.length = d ∧ anc.all (· == true) then op :: (s.step op).flatD (anc ++ [s.fires op]) rest
+      else s.flatD (anc ++ List.replicate (d + 1 - anc.length) false) rest
+
+/-- `close()` as it stood BEFORE patches/C08-06, with a close function that runs `script` (flat operations on
+the handles): `close_func(fd)` was called while the record still held the descriptor and the function;
+`close_func = nullptr; fd = -1` were written afterwards THROUGH `this->detail_`.  `none` = that pointer
+was null by then (the function reset the handle it was called through): a null-pointer write -/
+def FdSys.closeOld (s : FdSys) (h : Nat) (script : List FdOp) : Option FdSys :=
+  match s.detailOf h with
+  | none => some s
+  | some d =>
+      match s.details[d]? with
+      | none => some s
+      | some det =>
+          if det.fd ≥ 0 then
+            if det.hasFn then
+              let s1 := { s with closeLog := s.closeLog ++ [(det.fd.toNat, true)] }     -- the function runs: the descriptor is closed
+              let s2 := s1.run script                                                    -- … and does this to the handles
+              match s2.detailOf h with
+              | none => none
+              | some d2 =>
+                  match s2.details[d2]? with
+                  | none => none
+                  | some det2 => some { s2 with details := s2.details.set d2 { det2 with fd := -1, hasFn := false } }
+            else some (s.close h)
+          else some s
 
 /-! ## LifetimeTag / Watcher (modules/base/lifetime_tag.hpp)
 
